@@ -78,10 +78,58 @@ class _MonoAtoms:
         return z3.Sum(terms) if len(terms) > 1 else terms[0]
 
 
+_S2 = {"mode": None, "spent": 0.0}
+
+
+def _second_solver(s, r, stats, proc):
+    """Differential check of a deciding query with a second solver (cvc5, through the SMT-LIB text z3 exports).
+    Controlled by QV_SOLVER2 (default 'cvc5'; 'off' disables) with the size cap QV_SOLVER2_ROWS (assertions) and a
+    per-process time allowance QV_SOLVER2_BUDGET_S.  A definite disagreement is a harness error (the obligation
+    ends inconclusive, never discharged); a cvc5 timeout / oversize query is counted as skipped."""
+    import os
+    if _S2["mode"] is None:
+        _S2["mode"] = os.environ.get("QV_SOLVER2", "cvc5")
+        _S2["rows"] = int(os.environ.get("QV_SOLVER2_ROWS", "600"))
+        _S2["budget"] = float(os.environ.get("QV_SOLVER2_BUDGET_S", "8"))
+    if _S2["mode"] != "cvc5" or r not in ("sat", "unsat") or not proc.startswith(("Q-ID/LRA", "Q-CERT/LRA", "Q-CERT/cons")):
+        return
+    key = "second-solver(cvc5) "
+    if len(s.assertions()) > _S2["rows"] or _S2["spent"] > _S2["budget"]:
+        stats.by_proc[key + "skipped (size/time allowance)"] = stats.by_proc.get(key + "skipped (size/time allowance)", 0) + 1
+        return
+    t0 = time.time()
+    try:
+        import cvc5
+        txt = "(set-logic QF_LRA)\n" + s.to_smt2()
+        slv = cvc5.Solver()
+        slv.setOption("tlimit-per", "5000")
+        ip = cvc5.InputParser(slv)
+        ip.setStringInput(cvc5.InputLanguage.SMT_LIB_2_6, txt, "q")
+        sm = ip.getSymbolManager()
+        r2 = None
+        while True:
+            c = ip.nextCommand()
+            if c.isNull():
+                break
+            o = c.invoke(slv, sm)
+            if c.getCommandName() == "check-sat":
+                r2 = str(o).strip()
+    except Exception as e:                                            # noqa: BLE001 - an unusable second solver never decides
+        r2 = f"error: {type(e).__name__}"
+    _S2["spent"] += time.time() - t0
+    if r2 in ("sat", "unsat"):
+        if r2 != r:
+            raise AssertionError(f"solver disagreement on {proc}: z3 {r}, cvc5 {r2}")
+        stats.by_proc[key + "agrees"] = stats.by_proc.get(key + "agrees", 0) + 1
+    else:
+        stats.by_proc[key + "no verdict"] = stats.by_proc.get(key + "no verdict", 0) + 1
+
+
 def _check(s, stats, proc):
     t0 = time.time()
     r = str(s.check())
     stats.bump(proc, time.time() - t0)
+    _second_solver(s, r, stats, proc)
     return r
 
 
